@@ -59,8 +59,13 @@ func (set *Set[E]) Remove(items ...E) {
 	for _, item := range items {
 		if _, contains := set.table[item]; contains {
 			delete(set.table, item)
-			index := set.ordering.IndexOf(item)
-			set.ordering.Remove(index)
+			it := set.ordering.Iterator()
+			for it.Next() {
+				if it.Value() == item {
+					set.ordering.Remove(it.Index())
+					break
+				}
+			}
 		}
 	}
 }
